@@ -240,7 +240,14 @@ pub fn serve_credssp(io: &mut ServerIo, srv: &Value) -> bool {
     if t1.nego.is_none() { return false; }
     let flags = srv.get("ntlm_flags").and_then(|x| x.as_u64()).map(|x| x as u32).unwrap_or(FLAGS_DEFAULT);
     let ts: [u8; 8] = [0x80, 0x3e, 0xd5, 0xde, 0xb1, 0x9d, 0x01, 0x01];
-    let chal = ChallengeSpec { flags, challenge: [1, 2, 3, 4, 5, 6, 7, 8], target_name: utf16le("RDPSRV"), target_info: default_target_info(ts) };
+    // target information: the usual five pairs, or with extra pairs of the given value lengths in front (odd lengths are
+    // legal: the value of an AV pair is a byte string) - `ti_extra`: [[AvId, length], ...]
+    let mut ti = Vec::new();
+    for p in srv.get("ti_extra").and_then(|x| x.as_array()).cloned().unwrap_or_default() {
+        ti.extend(av_pair(p[0].as_u64().unwrap_or(5) as u16, &vec![0x41u8; p[1].as_u64().unwrap_or(0) as usize]));
+    }
+    ti.extend(default_target_info(ts));
+    let chal = ChallengeSpec { flags, challenge: [1, 2, 3, 4, 5, 6, 7, 8], target_name: utf16le(if srv.get("tname_odd").is_some() { "RDPSRV1" } else { "RDPSRV" }), target_info: ti };
     let cm = challenge_message(&chal);
     let mut first = ts_request(version, Some(&cm), None, None);
     // C07: the whole first reply may be faulted (Faults.tla descriptors)
